@@ -48,6 +48,14 @@ def run(cmd, cwd=None, timeout=600, env=None, shell=False):
         return 124, out + "\n[timeout after %ss]" % timeout
 
 
+def killed_by_system(rc, out):
+    """True when a child was killed by a signal it did not raise itself (SIGKILL from the kernel's OOM killer) and Coq
+    printed no error of its own: such a run carries no verdict and is repeated once."""
+    if re.search(r"\bError\b", out) and not re.search(r"Out of memory|Killed|signal 9|Error 137", out):
+        return False
+    return rc in (-9, 137, -15) or bool(re.search(r"\bKilled\b|signal 9|Error 137|Out of memory|Cannot allocate memory", out))
+
+
 class Broken(Exception):
     """A proof obligation, translator or correspondence that no longer checks."""
 
@@ -225,6 +233,10 @@ def coq_make(ctx, targets, timeout=1500):
         with PropLock(ctx.pid):
             mf = prop_makefile(ctx.pid, dirs)
             rc, out = run(["make", "-f", mf, "-j%d" % NPROC] + targets, cwd=COQ, timeout=timeout)
+            if rc != 0 and killed_by_system(rc, out):
+                # a coqc taken out by the kernel (memory pressure from other jobs) is not a broken proof: once more, gently
+                time.sleep(5)
+                rc, out = run(["make", "-f", mf, "-j4"] + targets, cwd=COQ, timeout=timeout)
     open(os.path.join(ctx.work, "make.log"), "w").write(out)
     if rc != 0:
         m = re.search(r'File "\./([^"]+)", line (\d+)', out)
@@ -295,8 +307,12 @@ def coq_eval_cases(ctx, harness_module, check_fn, case_type, terms, shard=400, t
             f.write(";\n".join("(%d, %s)" % (i, terms[i]) for i in idxs))
             f.write("\n].\nDefinition M := Eval vm_compute in (bad %s cases).\n" % check_fn)
             f.write('Goal True. idtac "@@BEGIN". Abort.\nPrint M.\nGoal True. idtac "@@END". Abort.\n')
-        rc, out = run(["coqc", "-Q", COQ, "Verif", "-w", "-all", "-o", os.path.join(ctx.work, "Cases_%d.vo" % k), vf],
-                      cwd=ctx.work, timeout=timeout)
+        cmd = ["coqc", "-Q", COQ, "Verif", "-w", "-all", "-o", os.path.join(ctx.work, "Cases_%d.vo" % k), vf]
+        rc, out = run(cmd, cwd=ctx.work, timeout=timeout)
+        if rc != 0 and killed_by_system(rc, out):
+            # killed from outside (kernel OOM killer under memory pressure): the shard says nothing yet — evaluate it again
+            time.sleep(5 + k % 7)
+            rc, out = run(cmd, cwd=ctx.work, timeout=timeout)
         return k, rc, out
 
     failed = []
